@@ -870,7 +870,14 @@ impl World {
             "setattr" => {
                 let p = nums(a1, '/');
                 let st = mk_stat(0, p[0] as u32, p.get(1).copied().unwrap_or(0) as u32);
-                attr(v.setattr(&ctx, i, st, None, SetattrValid::UID | SetattrValid::GID))
+                // optional third component: which owner ids the request sets (1 = uid only,
+                // 2 = gid only, default both); the translation must not depend on it
+                let valid = match p.get(2).copied().unwrap_or(3) {
+                    1 => SetattrValid::UID,
+                    2 => SetattrValid::GID,
+                    _ => SetattrValid::UID | SetattrValid::GID,
+                };
+                attr(v.setattr(&ctx, i, st, None, valid))
             }
             "readlink" => match v.readlink(&ctx, i) {
                 Ok(b) => format!("ok{}", String::from_utf8_lossy(&b)),
@@ -984,7 +991,8 @@ impl World {
             "setattr" => {
                 let p = nums(a1, '/');
                 let mut b = vec![0u8; 88];
-                b[0..4].copy_from_slice(&6u32.to_le_bytes()); // FATTR_UID | FATTR_GID
+                let bits: u32 = match p.get(2).copied().unwrap_or(3) { 1 => 2, 2 => 4, _ => 6 }; // FATTR_UID = 2, FATTR_GID = 4
+                b[0..4].copy_from_slice(&bits.to_le_bytes());
                 b[76..80].copy_from_slice(&(p[0] as u32).to_le_bytes());
                 b[80..84].copy_from_slice(&(p.get(1).copied().unwrap_or(0) as u32).to_le_bytes());
                 body = b;
